@@ -29,7 +29,7 @@ from concurrent.futures import ThreadPoolExecutor
 
 from harness import c3gen, project_ir
 from harness.c3gen import (ADDR, ASG, B, BITS, BL, CALL, CAST, DECL, DECLARR, DEREF, FN, FOR, G, IDX, IF, L, PROG, RET,
-                           SWITCH, TYPES, U, V, WHILE, can_coerce, common_type, is_signed, lit_of, trange)
+                           SIZEOF, SWITCH, TYPES, U, V, WHILE, can_coerce, common_type, is_signed, lit_of, trange)
 from harness.tlc import MachineryError
 
 SRC_CFG = """INIT RInit
@@ -155,6 +155,36 @@ def probes():
                                             [("K", "i32", B(op, B("-", L(0), L(7)), L(2)))]), False)
         yield ("ginit:%s:neg" % op, PROG([FN("f", "i32", [("a", "i32")], [RET(B("+", V("g"), V("a")))])],
                                         [G("g", "i32", [B(op, B("-", L(0), L(7)), L(2))])]), False)
+    # / and % in every constant context over all sign combinations of dividend and divisor, exact and inexact quotients
+    def neg(v):
+        return L(v) if v >= 0 else B("-", L(0), L(-v))
+
+    for op in ("/", "%"):
+        for a in (7, -7, 8, -8):
+            for b in (2, -2):
+                tag = "%s:%s%s:%s" % (op, "n" if a < 0 else "p", "n" if b < 0 else "p", "exact" if abs(a) == 8 else "inexact")
+                e = B(op, neg(a), neg(b))
+                q = abs(a) // abs(b) * (-1 if (a < 0) != (b < 0) else 1)      # only to choose interesting argument vectors
+                val = q if op == "/" else a - b * q
+                vecs = [[v] for v in dict.fromkeys([val, -val, val + 1, 0, 13, 3, -3])]
+                yield ("constexpr-sign:const:" + tag, PROG([FN("f", "i32", [("a", "i32")], [RET(B("+", V("K"), V("a")))])], [],
+                                                           [("K", "i32", e)]), vecs[:4])
+                yield ("constexpr-sign:const-byte:" + tag, PROG([FN("f", "i32", [("a", "i32")], [RET(B("+", B("*", V("K"), L(3)), V("a")))])], [],
+                                                                [("K", "u8", B("+", e, L(100)))]), vecs[:3])
+                yield ("constexpr-sign:ginit:" + tag, PROG([FN("f", "i32", [("a", "i32")], [RET(B("+", V("g"), V("a")))])],
+                                                           [G("g", "i32", [e])]), vecs[:4])
+                yield ("constexpr-sign:ginit-array:" + tag,
+                       PROG([FN("f", "i32", [("a", "i32")], [RET(B("+", B("-", IDX("ga", L(1)), IDX("ga", L(0))), V("a")))])],
+                            [G("ga", "i32", [L(5), e, B("*", e, L(2))], 3)]), vecs[:3])
+                yield ("constexpr-sign:case:" + tag,
+                       PROG([FN("f", "i32", [("a", "i32")], [DECL("r", "i32", L(1)),
+                                                             SWITCH(V("a"), [(e, [ASG(V("r"), L(10), "+=")]), (None, [ASG(V("r"), L(100), "+=")])]),
+                                                             RET(V("r"))])]), vecs[:6])
+                if val >= 1:
+                    yield ("constexpr-sign:array-size:" + tag,
+                           PROG([FN("f", "i32", [("a", "i32")], [ASG(IDX("ga", L(val - 1)), V("a")),
+                                                                 RET(B("+", IDX("ga", L(val - 1)), SIZEOF("u16", e)))])],
+                                [G("ga", "i32", ln=val, lenx=e)]), vecs[:3])
     yield ("constexpr:byte", PROG([FN("f", "i32", [("a", "i32")], [RET(B("+", B("+", V("K"), V("K2")), V("a")))])], [],
                                   [("K", "u8", L(300)), ("K2", "i32", B("*", V("K"), L(3)))]), False)
     yield ("constexpr:cast", PROG([FN("f", "i32", [("a", "i32")], [RET(B("+", V("K"), V("a")))])], [],
@@ -209,6 +239,8 @@ def probes():
 
 def probe_vectors(f, small_b, rng, n):
     ps = f["params"]
+    if isinstance(small_b, list):          # explicit vectors
+        return small_b
     cands = []
 
     def vals(p, small=False):
@@ -231,6 +263,8 @@ def construct_class(key):
     """The construct class (see c3gen.Gen: avoid) that a failing probe key belongs to, or None."""
     parts = key.split(":")
     fam, op = parts[0], parts[1] if len(parts) > 1 else ""
+    if fam == "constexpr-sign":
+        return "constexpr-div"
     if fam in ("constexpr", "ginit"):
         return "constexpr-div" if op in ("/", "%") else "constexpr"
     if fam in ("compound", "compound-mem"):
@@ -389,7 +423,7 @@ def src_lines(it, o):
         n = BITS[g["ty"]] // 8
         bs = gl[g["n"]]["bytes"]
         if g["len"]:
-            for j in range(g["len"]):
+            for j in range(len(bs) // n):
                 out.append("G %s[%d] %d" % (g["n"], j, decode(bs[j * n:(j + 1) * n], sg)))
         else:
             out.append("G %s %d" % (g["n"], decode(bs, sg)))
@@ -595,6 +629,20 @@ def micro_programs():
              [("K1", "i32", B("%", B("-", L(0), L(7)), L(2))), ("K2", "i32", B("/", L(7), L(2))), ("K3", "u8", L(300)),
               ("K4", "i32", B("+", V("K3"), V("K1")))]),
         [([0], "ok", -1 + 30 + 4300 - 3000, {"g": -3})])
+    # D9 with every sign combination; a constant array size; sizeof(T[n])
+    def NEG(v):
+        return B("-", L(0), L(v))
+
+    add("constant-division-signs",
+        PROG([FN("f", "i32", [("a", "i32")],
+                 [ASG(IDX("ga", L(2)), L(5)),
+                  SWITCH(V("a"), [(B("/", L(7), NEG(2)), [ASG(V("a"), L(1000000))]), (None, [ASG(V("a"), L(0))])]),
+                  RET(B("+", B("+", B("+", B("+", B("+", V("K1"), B("*", V("K2"), L(10))), B("*", V("K3"), L(100))), B("*", V("K4"), L(1000))),
+                             B("*", SIZEOF("u8", B("/", NEG(8), NEG(2))), L(10000))), V("a")))])],
+             [G("ga", "i32", ln=3, lenx=B("/", NEG(7), NEG(2)))],
+             [("K1", "i32", B("/", L(7), NEG(2))), ("K2", "i32", B("%", L(7), NEG(2))), ("K3", "i32", B("/", NEG(7), NEG(2))),
+              ("K4", "i32", B("%", NEG(7), NEG(2)))]),
+        [([0], "ok", -3 + 10 + 300 - 1000 + 40000, {"ga": [0, 0, 5]}), ([-3], "ok", -3 + 10 + 300 - 1000 + 40000 + 1000000), ([3], "ok", 39307)])
     # local arrays, DeclArr with and without initialiser
     add("local-arrays", PROG([FN("f", "i32", [("a", "i32")], [DECLARR("la", "i32", 3, [V("a"), B("+", V("a"), L(1)), L(7)]), ASG(IDX("la", L(1)), IDX("la", L(0)), "+="),
                                                                DECLARR("lb", "u8", 2), ASG(IDX("lb", L(0)), L(300)),
